@@ -718,6 +718,42 @@ theorem le_sortL_iff (xs : List α) (ξ : α) (i : ℕ) (hi : i < (sortL xs).len
   simp only [decide_eq_true_eq] at h
   rw [← not_lt, h, not_lt]
 
+attribute [local instance] Cmp.ofLinearOrder in
+/-- on a linear order the model's `sortData` never panics and is `sortL` -/
+theorem sortData_eq {W : Type} [Scalar W] (xs : List α) :
+    Quantile.sortData (W := W) xs = .ok (sortL xs) := by
+  have h : xs.any (fun x => !(Cmp.le x x)) = false := by
+    rw [List.any_eq_false]; intro x _; simp [Cmp.le]
+  simp only [Quantile.sortData, h, Bool.and_false]
+  rfl
+
 end sorted
+
+/-! ### coverage bookkeeping on the model -/
+
+theorem contains_twoSided (a b : Rex) (p : ℝ) :
+    (Interval.twoSided a b).contains (⟨p⟩ : Rex) = true ↔ a.val ≤ p ∧ p ≤ b.val := by
+  simp [Interval.contains]
+
+/-- does the interval returned by `ci_wilson` contain `p`?  An `.err`/panic outcome covers nothing. -/
+noncomputable def coversB (crit : Crit Rex) (conf : Confidence Rex) (n k : ℕ) (p : ℝ) : Bool :=
+  match ciWilson crit conf n k with
+  | .ok i => i.contains ⟨p⟩
+  | _ => false
+
+theorem coversB_of_ok {crit : Crit Rex} {conf : Confidence Rex} {n k : ℕ} {i : Interval Rex}
+    (h : ciWilson crit conf n k = .ok i) (p : ℝ) : coversB crit conf n k p = i.contains ⟨p⟩ := by
+  simp [coversB, h]
+
+/-- outside `2 ≤ k ≤ n − 2` the call is rejected, so nothing is covered -/
+theorem coversB_outside (crit : Crit Rex) (conf : Confidence Rex) (n k : ℕ) (p : ℝ)
+    (h : ¬ (2 ≤ k ∧ k + 2 ≤ n)) : coversB crit conf n k p = false := by
+  unfold coversB ciWilson
+  by_cases h1 : k > n
+  · simp [h1]
+  by_cases h2 : k < 2
+  · simp [h1, h2]
+  have h3 : n - k < 2 := by omega
+  simp [h1, h2, h3]
 
 end StatsCI.WilsonMono
